@@ -205,7 +205,13 @@ pub fn parse_cmd(line: &str) -> Option<Cmd> {
         "SF" => Some(Cmd::SF(hx(t.get(1)?)?)),
         "SFB" => Some(Cmd::SFB(hx(t.get(1)?)?)),
         "SP16" => Some(Cmd::SetPair(hx(t.get(1)?)? as u8, a16(2)?)),
-        "SWR" => Some(Cmd::SWR { which: hx(t.get(1)?)? as u8, blk: hx(t.get(2)?)?, nblk: hx(t.get(3)?)?, fmask: hx(t.get(4)?)? as u8 }),
+        "SWR" => Some(Cmd::SWR {
+            which: hx(t.get(1)?)? as u8,
+            blk: hx(t.get(2)?)?,
+            nblk: hx(t.get(3)?)?,
+            fmask: hx(t.get(4)?)? as u8,
+            link: match (t.get(5), t.get(6)) { (Some(l), Some(d)) => Some((hx(l)? as u8, hx(d)? as u16)), _ => None },
+        }),
         _ => None,
     }
 }
@@ -555,25 +561,31 @@ fn run_property(o: &Opts, out: &mut dyn Write) -> i32 {
             for l in script.lines() {
                 match parse_cmd(l) {
                     Some(Cmd::S(s)) | Some(Cmd::SN(s)) => st = Some(*s),
-                    Some(Cmd::SWR { which, blk, nblk, fmask }) => swr = Some((which, blk, nblk, fmask)),
+                    Some(Cmd::SWR { which, blk, nblk, fmask, link }) => swr = Some((which, blk, nblk, fmask, link)),
                     _ => {}
                 }
             }
-            if let (Some(s0), Some((which, blk, nblk, fmask))) = (st, swr) {
+            if let (Some(s0), Some((which, blk, nblk, fmask, link))) = (st, swr) {
                 let per = 65536 / nblk.max(1);
                 let mut cs = vec![];
                 for k in 0..per {
                     let v = (blk * per + k) as u16;
                     let mut s = s0.clone();
-                    match which {
-                        0 => s.set_pair(B, v),
-                        1 => s.set_pair(D, v),
-                        2 => s.set_pair(H, v),
-                        3 => s.set_pair(IXH, v),
-                        4 => s.set_pair(IYH, v),
-                        5 => s.sp = v,
-                        6 => s.pc = v,
-                        _ => s.set_pair(A, v),
+                    let mut sets: Vec<(u8, u16)> = vec![(which, v)];
+                    if let Some((l, d)) = link {
+                        sets.push((l, v.wrapping_add(d)));
+                    }
+                    for (w, v) in sets {
+                        match w {
+                            0 => s.set_pair(B, v),
+                            1 => s.set_pair(D, v),
+                            2 => s.set_pair(H, v),
+                            3 => s.set_pair(IXH, v),
+                            4 => s.set_pair(IYH, v),
+                            5 => s.sp = v,
+                            6 => s.pc = v,
+                            _ => s.set_pair(A, v),
+                        }
                     }
                     let mut c = Case::new(format!("{}/value", tag));
                     c.key = key.clone();
